@@ -205,6 +205,23 @@ namespace
                 fail("C02/grains/covering=" + cover, "grains differ from the reference fold", first_bad);
             }
         }
+        // the same values must come back when every property is asked for on its own (any grouping, any entry point)
+        {
+          size_t slot = 0;
+          for (size_t a = 0; a < REQ.size(); ++a)
+            {
+              const std::vector<double> alone = w->properties(T.pts[ip].p, T.pts[ip].depth, {REQ[a]});
+              ctx.eval();
+              if (alone.size() + slot > out.size() || std::memcmp(alone.data(), &out[slot], alone.size()*sizeof(double)) != 0)
+                {
+                  const char *kind = REQ[a][0] == 1 ? "temperature" : REQ[a][0] == 2 ? "composition" : REQ[a][0] == 3 ? "grains" : "tag";
+                  ctx.violation(std::string("C02/standalone-differs-from-batched/") + kind + "/covering=" + cover,
+                                JObj().str("what", "the stand-alone query of one property differs from its block in the batched query").str("features", cdesc)
+                                .raw("point", jarr(T.pts[ip].p)).num("depth", T.pts[ip].depth).raw("standalone", jarr(alone)).raw("batched", jarr(out)).str("world", text).done());
+                }
+              slot += alone.size();
+            }
+        }
         const double tag = out[NOUT-1];
         if (lasttag.empty() ? tag != -1 : (tag < 0 || tag >= static_cast<double>(w->feature_tags.size()) || w->feature_tags[static_cast<size_t>(tag)] != lasttag))
           fail("C02/tag/covering=" + cover, "tag is not that of the last covering feature (expected '" + lasttag + "')", NOUT-1);
